@@ -139,6 +139,7 @@ type Run struct {
 	Inconclusive string
 	Post         []func() // run after the bubble has ended (real clock, no simulated goroutines)
 	endSim       string
+	abandoned    bool
 	lastOp       string // what the workload was about to call (quoted when the call never returns)
 }
 
@@ -191,8 +192,24 @@ func (r *Run) Sig(s string) {
 func (r *Run) Fail(class, f string, a ...any) {
 	r.mu.Lock()
 	defer r.mu.Unlock()
+	if r.abandoned {
+		// a node of this run is deadlocked in its shutdown (recorded as a diagnostic): what the oracles
+		// see from here on is a consequence of that, not evidence about the property
+		r.stats["alarms_after_abandon"]++
+		return
+	}
 	if r.violation == nil {
 		r.violation = &Violation{Property: r.Prop, Class: class, Msg: fmt.Sprintf(f, a...), Step: r.steps, SimTime: r.simNow()}
+	}
+}
+
+// Abandon stops the run from recording violations from now on (what was recorded before stays).
+func (r *Run) Abandon(why string) {
+	r.mu.Lock()
+	defer r.mu.Unlock()
+	r.abandoned = true
+	if r.Inconclusive == "" {
+		r.Inconclusive = why
 	}
 }
 // violationSuffix appends context to the recorded violation, if any.
